@@ -54,7 +54,17 @@ class IsShort:
         return len(x) < 3                                 # TypeError for numbers: a rejection like any other exception
 
 
-PREDS = {'pos': pos, 'boom': boom, 'ratio': ratio, 'partial-gt3': PARTIAL_GT3, 'callable-object': IsShort()}
+class Ambiguous:
+    """an answer without a truth value (like an array comparison): asking for it raises"""
+    def __bool__(self):
+        raise ValueError('the truth value of this answer is ambiguous')
+
+
+def vague(x):
+    return Ambiguous() if isinstance(x, (int, float)) else isinstance(x, str)
+
+
+PREDS = {'pos': pos, 'boom': boom, 'ratio': ratio, 'partial-gt3': PARTIAL_GT3, 'callable-object': IsShort(), 'vague': vague}
 
 # ------------------------------------------------------------------ targets
 
@@ -190,7 +200,7 @@ def ref(p, t):
         return t
     if k == 'pred':
         try:
-            ok = PREDS[p[1]](t)
+            ok = bool(PREDS[p[1]](t))       # an answer that cannot be reduced to a truth value is a rejection like any other exception
         except Exception:
             raise Fail('other')
         if not ok:
@@ -501,7 +511,7 @@ def run_case(case):
 # ------------------------------------------------------------------ pattern generator
 
 LEAVES = [['lit', 1], ['lit', 'a'], ['lit', None], ['type', 'int'], ['type', 'str'], ['type', 'object'],
-          ['regex', 'a+'], ['pred', 'pos'], ['pred', 'boom'], ['pred', 'ratio'], ['pred', 'partial-gt3'], ['pred', 'callable-object'], ['regex-bytes', 'a+'], ['M', '>', 0], ['M', '==', 'a'], ['M', '>=', 0], ['M', '<=', 0.5], ['M', '!=', 'a'],
+          ['regex', 'a+'], ['pred', 'pos'], ['pred', 'boom'], ['pred', 'ratio'], ['pred', 'partial-gt3'], ['pred', 'callable-object'], ['pred', 'vague'], ['regex-bytes', 'a+'], ['M', '>', 0], ['M', '==', 'a'], ['M', '>=', 0], ['M', '<=', 0.5], ['M', '!=', 'a'],
           ['and', [['type', 'int'], ['M', '>', 0]]], ['or', [['type', 'int'], ['type', 'str']]], ['or', [['lit', 1], ['lit', 'a']]],
           ['not', ['type', 'str']], ['not', ['lit', 1]]]
 HASHABLE_KEYS = [['lit', 'k'], ['lit', 1], ['type', 'str'], ['type', 'int'], ['type', 'object'], ['regex', 'k+'],
